@@ -1,7 +1,160 @@
-(* C06 -- placeholder while the harness is brought up; replaced below *)
+(* C06 -- Queries relate dimensions exactly as the stored records relate them.
+   Statements only; every proof is `exact <lemma>` from Proofs/JoinProofs{,B,C,D}.v.  Model: Model/Join.v over the C12
+   universe model; `jc_current` = the current universe and its spatial families REGENERATED from dimensions.yaml
+   (Gen/Universes.v) + the view-of map (band <- physical_filter, checked against the implementation on every run).
+
+   Vocabulary
+     spec c ov d ns        brute force: the assignments over the group's dimensions ns (values from the active domain) for
+                           which every dimension / relationship-defining element of the group has an agreeing row in d and,
+                           when two spatial families meet, the regions of their finest members overlap (ov)
+     run_plan / query      natural join of the planned tables + overlap-table prefilter + exact region test
+     fk_closed c d         every foreign key of the schema holds in d          (database-enforced: proved for every history)
+     view_closed c d       every band value used by another table is the band of some physical_filter
+                           (NOT enforced by the schema: hypothesis; refuted without it, see dangling_band_refuted)
+     ovl_sound c env s     every pixel of the envelope of every stored region has its row in the overlap table
+     ovl_nonnull c s       no overlap row belongs to a record whose region is NULL
+     ov, env, env_sound    abstract geometry: exact overlap, common-skypix envelope, "overlapping regions share a pixel" *)
 From Coq Require Import String List Bool ZArith NArith.
-From V Require Import Model.Universe Model.Group Gen.Universes Model.Join Model.JoinCheck.
+From V Require Import Model.Universe Model.Group Gen.Universes Model.Join Model.JoinCheck
+  Proofs.GroupProofs Proofs.JoinProofs Proofs.JoinProofsB Proofs.JoinProofsC Proofs.JoinProofsD.
 Import ListNotations.
-Theorem c06_placeholder : covers jc_current (full_plan jc_current ["instrument"%string]) ["instrument"%string] = true.
-Proof. vm_compute. reflexivity. Qed.
-Print Assumptions c06_placeholder.
+Open Scope string_scope.
+Open Scope list_scope.
+
+(* ---- the plan is correct: ANY universe passing uni_okb, ANY group, ANY population, ANY plan that contains the
+        mandatory tables, joins only elements of the group and covers its dimensions (so the hash-order dependent
+        tie-break of the greedy loop is irrelevant) ---- *)
+Theorem plan_correct : forall (ov : N -> N -> bool) (env : N -> list N),
+  (forall x y, ov x y = true -> exists p, In p (env x) /\ In p (env y)) ->
+  forall c s plan ns,
+  wf_universe (ju c) = true -> uni_okb c = true ->
+  fk_closed c (recs s) -> view_closed c (recs s) -> ovl_sound c env s -> ovl_nonnull c s ->
+  (forall t, In t plan -> In t (ju c)) -> plan_sub c ns plan -> incl (mandatory c ns) plan ->
+  covers c plan ns = true -> spatial_pair c ns <> SpMany ->
+  run_plan c ov s plan ns = QOk (spec c ov (recs s) ns).
+Proof. exact plan_correct_p. Qed.
+Print Assumptions plan_correct.
+
+(* the driver's own plan (mandatory tables + greedy completion), for any configuration where plan_okb holds *)
+Theorem query_correct : forall (ov : N -> N -> bool) (env : N -> list N),
+  (forall x y, ov x y = true -> exists p, In p (env x) /\ In p (env y)) ->
+  forall c s ns,
+  wf_universe (ju c) = true -> uni_okb c = true -> plan_okb c ns = true ->
+  fk_closed c (recs s) -> view_closed c (recs s) -> ovl_sound c env s -> ovl_nonnull c s ->
+  query c ov s ns = QOk (spec c ov (recs s) ns).
+Proof. exact query_correct_p. Qed.
+Print Assumptions query_correct.
+
+(* the conservative prefilter never changes what the exact region test keeps *)
+Theorem prefilter_exact : forall (ov : N -> N -> bool) (env : N -> list N),
+  (forall x y, ov x y = true -> exists p, In p (env x) /\ In p (env y)) ->
+  forall c s ns ea eb rows, uni_okb c = true -> ovl_sound c env s -> spatial_pair c ns = SpPair ea eb ->
+  filter (sp_overlap ov (recs s) ea eb) (filter (pre (ovl s) ea eb) rows) = filter (sp_overlap ov (recs s) ea eb) rows.
+Proof. exact prefilter_exact_p. Qed.
+Print Assumptions prefilter_exact.
+
+(* ---- the shipped universe: finite checks by computation (bound: the 2^13 subsets of its non-skypix dimensions) ---- *)
+Theorem uni_ok_current : wf_universe (ju jc_current) = true /\ uni_okb jc_current = true.
+Proof. exact (conj current_wf_j uni_ok_current_p). Qed.
+Print Assumptions uni_ok_current.
+
+Theorem plan_total_current : forallb closed_plan_okb (all_subsets (nonskypix_dimension_names u_current)) = true.
+Proof. exact plan_total_current_p. Qed.
+Print Assumptions plan_total_current.
+
+Theorem query_correct_current : forall (ov : N -> N -> bool) (env : N -> list N),
+  (forall x y, ov x y = true -> exists p, In p (env x) /\ In p (env y)) ->
+  forall l ns s, In l (all_subsets (nonskypix_dimension_names u_current)) -> closure u_current l = GOk ns ->
+  fk_closed jc_current (recs s) -> view_closed jc_current (recs s) -> ovl_sound jc_current env s -> ovl_nonnull jc_current s ->
+  query jc_current ov s ns = QOk (spec jc_current ov (recs s) ns).
+Proof. exact query_correct_current_p. Qed.
+Print Assumptions query_correct_current.
+
+(* ---- histories: every sequence of insert / insert(replace) / insert(skip_existing) / sync / sync(update) ---- *)
+(* foreign keys hold after EVERY history (refused operations leave the state alone) *)
+Theorem insert_preserves_fk : forall c env h, wf_universe (ju c) = true -> fk_closed c (recs (run_hist c env h st0)).
+Proof. exact fk_closed_hist_p. Qed.
+Print Assumptions insert_preserves_fk.
+
+(* overlap tables, conservative half, EVERY history: the envelope of every stored region is materialised *)
+Theorem overlap_tables_inv_sound : forall c env h, wf_universe (ju c) = true -> ovl_sound c env (run_hist c env h st0).
+Proof. exact ovl_sound_hist_p. Qed.
+Print Assumptions overlap_tables_inv_sound.
+
+(* overlap tables, exact half, histories without skip_existing: every overlap row belongs to a stored record that
+   has a region (so no NULL region reaches the exact test), and only spatial elements have overlap rows *)
+Theorem overlap_tables_inv_partial : forall c env h, wf_universe (ju c) = true -> skip_free h = true ->
+  ovl_nonnull c (run_hist c env h st0) /\ ovl_keyed c (run_hist c env h st0) /\ ovl_spatial_only c (run_hist c env h st0).
+Proof. exact ovl_inv_hist_p. Qed.
+Print Assumptions overlap_tables_inv_partial.
+
+(* ... and it is false with skip_existing: the rows of a region the record does not have stay behind *)
+Theorem overlap_exact_refuted_skip :
+  let s := run_hist jc_current env_w (h_base ++ [op_skip]) st0 in
+  exists k p, In (k, p) (oget (ovl s) "visit") /\ forall r, In r (tget (recs s) "visit") -> rregion r = None.
+Proof. exact overlap_exact_refuted_skip_p. Qed.
+Print Assumptions overlap_exact_refuted_skip.
+
+(* end to end, current universe, every closed group, every skip-free history: the query answers with the
+   specification of the final records *)
+Theorem history_query_correct_current : forall (ov : N -> N -> bool) (env : N -> list N),
+  (forall x y, ov x y = true -> exists p, In p (env x) /\ In p (env y)) ->
+  forall h l ns, In l (all_subsets (nonskypix_dimension_names u_current)) -> closure u_current l = GOk ns ->
+  skip_free h = true -> view_closed jc_current (recs (run_hist jc_current env h st0)) ->
+  query jc_current ov (run_hist jc_current env h st0) ns = QOk (spec jc_current ov (recs (run_hist jc_current env h st0)) ns).
+Proof. exact history_query_correct_current_p. Qed.
+Print Assumptions history_query_correct_current.
+
+(* order independence.  PARTIAL: both answers are `filter valid` over the candidate assignments of the respective final
+   records and `valid` is the same function when the final tables are equal as sets; not proved: that the two candidate
+   enumerations (built from the tables' value columns in table order) are permutations of each other *)
+Theorem order_independent_partial : forall (ov : N -> N -> bool) (env : N -> list N),
+  (forall x y, ov x y = true -> exists p, In p (env x) /\ In p (env y)) ->
+  forall c h h' ns,
+  wf_universe (ju c) = true -> uni_okb c = true -> plan_okb c ns = true -> skip_free h = true -> skip_free h' = true ->
+  let s := run_hist c env h st0 in let s' := run_hist c env h' st0 in
+  view_closed c (recs s) -> view_closed c (recs s') -> same_tables (recs s) (recs s') ->
+  query c ov s ns = QOk (filter (valid c ov (recs s) ns) (cands (recs s) ns))
+  /\ query c ov s' ns = QOk (filter (valid c ov (recs s') ns) (cands (recs s') ns))
+  /\ forall a, valid c ov (recs s) ns a = valid c ov (recs s') ns a.
+Proof. exact order_independent_partial_p. Qed.
+Print Assumptions order_independent_partial.
+
+Theorem spec_sees_tables_as_sets : forall c ov d d' ns a, same_tables d d' -> valid c ov d ns a = valid c ov d' ns a.
+Proof. exact valid_same_tables. Qed.
+Print Assumptions spec_sees_tables_as_sets.
+
+(* with skip_existing the answer DOES depend on the history: same final records, one query returns, the other raises.
+   Replayed on the implementation: Butler.query_data_ids(["visit","tract"]) raises TypeError (known finding) *)
+Theorem order_independent_refuted_skip :
+  closure u_current ["visit"; "tract"] = GOk ns_visit_tract
+  /\ recs (run_hist jc_current env_w (h_base ++ [op_skip]) st0) = recs (run_hist jc_current env_w h_base st0)
+  /\ query jc_current ov_w (run_hist jc_current env_w h_base st0) ns_visit_tract = QOk []
+  /\ query jc_current ov_w (run_hist jc_current env_w (h_base ++ [op_skip]) st0) ns_visit_tract = QCrash.
+Proof. exact order_independent_refuted_skip_p. Qed.
+Print Assumptions order_independent_refuted_skip.
+
+(* without view_closed plan and specification differ: every operation is accepted, query(["subfilter"]) returns a band
+   that query(["band"]) does not have.  Replayed on the implementation (known finding) *)
+Theorem dangling_band_refuted :
+  let s := run_hist jc_current env_w h_dangling st0 in
+  run_outs jc_current env_w h_dangling st0 = [ROk; ROk; ROk]
+  /\ query jc_current ov_w s ["band"; "subfilter"] = QOk [[("band", 3%Z); ("subfilter", 1%Z)]]
+  /\ spec jc_current ov_w (recs s) ["band"; "subfilter"] = []
+  /\ query jc_current ov_w s ["band"] = QOk [[("band", 1%Z)]].
+Proof. exact dangling_band_refuted_p. Qed.
+Print Assumptions dangling_band_refuted.
+
+(* ---- non-vacuity: a reachable state satisfying every hypothesis, with a spatial query that returns a row ---- *)
+Example geometry_witness : forall x y, ov_w x y = true -> exists p, In p (env_w x) /\ In p (env_w y).
+Proof. exact env_w_sound. Qed.
+
+Example example_history :
+  skip_free h_example = true
+  /\ run_outs jc_current env_w h_example st0 = [ROk; ROk; ROk; ROk; ROk; ROk; ROk; RUpdated]
+  /\ query jc_current ov_w (run_hist jc_current env_w h_example st0) ns_visit_tract
+     = QOk [[("band", 1%Z); ("instrument", 1%Z); ("skymap", 1%Z); ("day_obs", 5%Z); ("physical_filter", 1%Z); ("tract", 1%Z); ("visit", 1%Z)]].
+Proof. exact example_history_p. Qed.
+
+Example example_view_closed : view_closed jc_current (recs (run_hist jc_current env_w h_example st0)).
+Proof. exact example_view_closed_p. Qed.
